@@ -256,19 +256,26 @@ static std::vector<int> drivenComps(const std::string& h) {
   return r;
 }
 // class of the distance between the tangent operator returned at the end of the step s0 -> s0 + de and fourth order central
-// differences of the stress with respect to the driven strain components
+// differences of the stress with respect to the driven strain components; -1 when the stencil straddles the yield surface
+// (the response has a kink there: some points of the stencil are elastic steps and others plastic steps)
 static long long fdTangentClass(Beh& b, const std::map<std::string, double>& mat, const State& s0, const Vec& de, const double szz1,
                                 const std::vector<Vec>& nat) {
   ld best = std::nanl("");
   ld scale = 0;
   for (const auto& row : nat) scale = std::max(scale, maxabs(row));
+  const int op = b.offsetOf("EquivalentPlasticStrain");
+  const auto base = step(b, mat, s0, de, szz1, 0.);
+  const bool plastic = op >= 0 && base.isvAt(op) > ld(s0.isv[op]);
+  bool straddles = false;
   for (const ld h : {std::ldexp(ld(1), -9), std::ldexp(ld(1), -11)}) {
     ld res = 0;
     for (const int d : drivenComps(b.hyp)) {
       auto at = [&](const ld t) {
         Vec x = de;
         x[d] += t;
-        return step(b, mat, s0, x, szz1, 0.).sig();
+        const auto r = step(b, mat, s0, x, szz1, 0.);
+        if (op >= 0 && (r.isvAt(op) > ld(s0.isv[op])) != plastic) straddles = true;
+        return r.sig();
       };
       const Vec a1 = at(h), b1 = at(-h), a2 = at(2 * h), b2 = at(-2 * h);
       for (int c = 0; c < b.ns; ++c) {
@@ -281,7 +288,7 @@ static long long fdTangentClass(Beh& b, const std::map<std::string, double>& mat
     const ld e = res / std::max(scale, ld(1e-300));
     if (!(best == best) || e < best) best = e;
   }
-  return dclass(best);
+  return straddles ? -1LL : dclass(best);
 }
 
 // the two-step history of a case in hypothesis h, and the same loading embedded in the 3D hypothesis (perm: local component k is
